@@ -115,4 +115,4 @@ Definition run_hist (h : hist) : list kv :=
   match m_calc m with
   | Ok n => [("writes", OL [obs_write (m_write_into m (repeat 170%N n))])]
   | _ => [("writes", OL [obs_write (m_write_into m [])])]
-  end.
+  end ++ obs_roundtrip m 170%N.
